@@ -229,3 +229,28 @@ func (w *World) GenData(info FnInfo) any {
 	p.Elem().Set(v)
 	return p.Interface()
 }
+
+// ForceUnique makes sure every item of a generated list carries at least one unique non-key
+// value, so that the list is attributable to exactly one generated update.
+//
+//go:norace
+func (w *World) ForceUnique(info FnInfo, data any) {
+	if !info.IsList || info.ListFld < 0 {
+		return
+	}
+	sl := reflect.ValueOf(data).Elem().Field(info.ListFld)
+	s := shapeOf(info.ItemType)
+	for i := 0; i < sl.Len(); i++ {
+		it := sl.Index(i)
+		for _, f := range s.Fields {
+			if f.Class == fcScaled {
+				it.Field(f.Idx).Set(reflect.ValueOf(model.NewScaledNumberType(float64(w.Uniq()))))
+				break
+			}
+			if f.Class == fcScalar && f.Kind != reflect.Bool {
+				w.setScalar(it.Field(f.Idx), f)
+				break
+			}
+		}
+	}
+}
